@@ -31,6 +31,19 @@ CLAIMED = {
   "Known findings K2/K3 (both MakeFunc callbacks gate on a captured frame's id) are printed as KNOWN-FINDING; they are genuine defects whose repair needs a design decision (it conflicts with stopping callbacks entered by goroutines running at the time of the cancel).",
   "go/cfg dominance + SSA provenance of the id operand", "DESIGN.md §2 C10"),
 
+ "C11": ("other",
+  "Persistence clauses behind 'piecewise equals whole': the persistent tables of the interpreter are allocated once by the constructor (SSA store sites), the global frame grows in place (copy of the old vector, only the new tail initialised), package scopes are created only when absent, every evaluation/compilation entry point goes through the one pipeline, and every closure value captures a clone of its defining frame (also the global frame). Equality of output and global state across arbitrary cuts of a program is NOT decided; symbol-level redefinition semantics and source-name bookkeeping are value-level and not covered.",
+  "Seeded changes in compDefineX symbol flags and in compileSrc's source-name handling are NOT detected (DESIGN.md).",
+  "who-may-write analysis on SSA store sites + call-graph reachability + SSA value provenance", "DESIGN.md §2 C11"),
+ "C15": ("other",
+  "Structural clauses of initialisation order: root code, then the global-variable node, then the forward loop over the start list, on every go/cfg path of Execute and importSrc; main appended after every init contribution; the per-file pass contributes only init functions by appending; import-once test dominating everything in importSrc; the dependency collector follows function symbols. The correctness of the ordering fix-point (scheduling of direct dependencies) is NOT decided.",
+  "Defect K7/D12 (dependencies through function bodies) was found by R15.4 and repaired for plain functions; methods are not followed by the repair and the rule does not decide that part.",
+  "go/cfg dominance over resolved call sites + sibling cross-check of Execute/importSrc", "DESIGN.md §2 C15"),
+ "C16": ("other",
+  "Structural clauses of source-import resolution inside importSrc/pkgDir: import-once test first, cycle test before cycle mark before any loading or recursing call, relative imports built from the importing file's directory, vendor candidate examined before the GOPATH candidate and the search continued from previousRoot on the interpreter's filesystem, every file access under importSrc going through io/fs on Options' filesystem. The path arithmetic of effectivePkg/previousRoot (string values) is NOT decided: three seeded changes of that kind are not detected.",
+  "Trusted: go/cfg dominance. See DESIGN.md for the undetected seeded changes.",
+  "go/cfg dominance/ordering rules + who-may-call rule for file-system access", "DESIGN.md §2 C16"),
+
  "C12": ("other",
   "Structural clauses of 'rejected before anything runs': Execute dominated by the nil branch of the compile error (SSA dominance); importSrc never returns from execution to compilation; nothing reachable from CompileAST reaches the execution functions (static call graph); error discipline of the compile passes (no implicit discard, explicit discards only from a reviewed table, no error definition overwritten by a possibly-nil one before being read: reaching definitions on go/cfg over every error variable of every compile-pass function); every typecheck method reachable from the cfg pass. The predicates inside the type rules are NOT decided: a loosened assignableTo/convertibleTo is invisible to this check, and 'the well-typed program is never rejected' is not decided.",
   "Known finding K1 (imported source packages are initialised while the importer is still compiled) printed as KNOWN-FINDING. Two overwrite sites are frozen exceptions with their reason in the checker (c12Overwrites).",
